@@ -65,17 +65,20 @@ def r_fmlapos(ctx, rep):
         return
     key = "xls::Xls::parse_workbook|R-FMLAPOS"
     found = 0
-    for it, pat, body, node in for_loops(fn.body):
-        disp = None
-        for m in walk_k(body, "Match"):
-            lits = [v for a in m.get("arms", []) for v in _arm_ints(a)]
-            if 0x0207 in lits and 0x0006 in lits:
-                disp = m
-                break
-        if disp is None:
+    # the record dispatch and the innermost loop around it (`for record in records`, `while let Some(r) = it.next()`,
+    # `loop { match it.next() { .. } }` all desugar to a Loop node)
+    loops = []
+    for m, anc in walk_anc(fn.body):
+        if m.get("k") != "Match":
             continue
-        if any(b2 is not body and any(x is disp for x in walk(b2)) for _, _, b2, n2 in for_loops(body)):
-            continue    # an enclosing loop (the loop over the sheets): the record loop is the innermost one
+        lits = [v for a in m.get("arms", []) for v in _arm_ints(a)]
+        if 0x0207 in lits and 0x0006 in lits:
+            lp = [a for a in anc if a.get("k") == "Loop"]
+            if lp:
+                loops.append((m, lp[-1]))
+    for disp, lp in loops:
+        body = lp["body"]
+        pat = {"k": "Wild"}
         found += 1
         arm_s = next(a for a in disp["arms"] if 0x0207 in _arm_ints(a))
         arm_f = next(a for a in disp["arms"] if 0x0006 in _arm_ints(a))
@@ -96,7 +99,7 @@ def r_fmlapos(ctx, rep):
             for a in m.get("arms", []):
                 for _, lid in pat_bindings(a["pat"]):
                     inner.setdefault(lid, m["scrut"])
-        item_lids = {lid for _, lid in pat_bindings(pat)}
+        item_lids = {n["lid"] for n in walk_k(body, "Binding")} - set(inner)
         imap = inl_params(body)
         roots, seen, work = set(), set(), [ctor[0]["args"][0]]
         while work:
@@ -532,3 +535,236 @@ def r_cfblen(ctx, rep):
             rep.violation("R-CFBLEN", key, loc(c), "the %s chain is truncated to a length that is not `%s_len * sector_size` (fields read: %s): with 4096-byte sectors only part of the chain is kept -- directory entries (and with them streams such as EncryptedPackage) disappear" % (which, which, sorted(x for x in fields if x)))
     if n < 2:
         rep.anchor_missing("R-CFBLEN", "the get_chain calls for the directory and the mini FAT in cfb::Cfb::new (found %d)" % n)
+
+
+# ----------------------------------------------------------------------------------------------
+# rules added after the seventh seeding round (indirect breaks: shared helpers, constructors, cooperating sites)
+
+
+def r_dtnew(ctx, rep):
+    """C10 / C11 / C16: `ExcelDateTime::new(value, datetime_type, is_1904)` is the only way the readers build a date
+    value; it stores each argument unchanged -- in particular the workbook's date system reaches the value whatever
+    its flavour (a `[h]:mm:ss` cell of a 1904 workbook is still a 1904 value)."""
+    F = ctx.facts("default")
+    fn = F.fn("datatype::ExcelDateTime::new")
+    key = "datatype::ExcelDateTime::new|R-DTNEW"
+    if fn is None:
+        rep.anchor_missing("R-DTNEW", "datatype::ExcelDateTime::new")
+        return
+    params = {p["name"]: p["lid"] for p in fn.params if p.get("k") == "Binding"}
+    lits = [s for s in walk_k(fn.body, "Struct") if (s.get("res", {}).get("def") or s.get("res", {}).get("ctor_of") or "").endswith("ExcelDateTime")]
+    if not lits:
+        rep.anchor_missing("R-DTNEW", "the struct literal in ExcelDateTime::new")
+        return
+    imap = inl_params(fn.body)
+    bad = []
+    n = 0
+    for f in lits[0].get("fields", []):
+        n += 1
+        e = f["e"]
+        pl = path_local(peel(e)) if isinstance(peel(e), dict) and peel(e).get("k") == "Path" else None
+        while pl and pl[1] in imap:
+            e = imap[pl[1]]
+            pl = path_local(peel(e)) if isinstance(peel(e), dict) and peel(e).get("k") == "Path" else None
+        if not pl or pl[1] != params.get(f["name"]):
+            bad.append(f["name"])
+    if lits[0].get("base") is not None or n < 3:
+        bad.append("(not every field is initialised from a parameter)")
+    if bad:
+        rep.violation("R-DTNEW", key, loc(lits[0]), "ExcelDateTime::new does not store its argument unchanged in field(s) %s: every date value of every reader goes through this constructor, so e.g. the 1904 flag of an elapsed-time cell would be lost" % ", ".join(bad))
+    else:
+        rep.holds("R-DTNEW", key, loc(lits[0]), "value, datetime_type and is_1904 are stored as given")
+
+
+def r_attrkey(ctx, rep):
+    """C10 / C01: xlsx attributes are looked up by their full name.  An unprefixed attribute belongs to no namespace;
+    `aud:s` is not `s`.  `xlsx::get_attribute` therefore compares the attribute's key itself, never its local name."""
+    F = ctx.facts("default")
+    fn = F.fn("xlsx::get_attribute")
+    key = "xlsx::get_attribute|R-ATTRKEY"
+    if fn is None:
+        rep.anchor_missing("R-ATTRKEY", "xlsx::get_attribute")
+        return
+    loc_calls = [c for c in walk_k(fn.body, "MethodCall") if c.get("name") == "local_name"]
+    eqs = [b for b in walk_k(fn.body, "Binary") if b.get("op") == "=="]
+    if loc_calls:
+        rep.violation("R-ATTRKEY", key, loc(loc_calls[0]), "get_attribute matches attributes by local name: an attribute of a foreign namespace with the same local name (`<c x:s=\"0\" s=\"1\">`) is taken for the cell's own (style index, type, reference)")
+    elif not eqs:
+        rep.anchor_missing("R-ATTRKEY", "the key comparison in xlsx::get_attribute")
+    else:
+        rep.holds("R-ATTRKEY", key, loc(eqs[0]), "attribute key compared as a whole")
+
+
+def r_date_split(ctx, rep):
+    """C11 (feature dates): when a conversion splits a millisecond / day count into whole units and a remainder,
+    quotient and remainder must round the same way: `floor` goes with `rem_euclid`, truncation with `%`.  `(x / m).floor()`
+    next to `x % m` is one whole unit off for every negative x with a non-zero fraction."""
+    try:
+        F = ctx.facts("dates")
+    except SystemExit:
+        raise
+    from .kit import shape
+    n = 0
+    for fn in F.fns_in("src/datatype.rs"):
+        floors = [c for c in walk_k(fn.body, "MethodCall") if c.get("name") == "floor" and unwrap(c["recv"]).get("k") == "Binary" and unwrap(c["recv"]).get("op") == "/"]
+        rems = [b for b in walk_k(fn.body, "Binary") if b.get("op") == "%" and (unwrap(b["l"]).get("ty") or "") in ("f64", "f32")]
+        for fl in floors:
+            d = unwrap(fl["recv"])
+            for r in rems:
+                n += 1
+                if shape(d["l"]) == shape(r["l"]) and shape(d["r"]) == shape(r["r"]):
+                    rep.violation("R-DATE-SPLIT", "%s|R-DATE-SPLIT" % fn.name, loc(r), "%s splits a value with `(x / m).floor()` and `x %% m`: floor rounds towards minus infinity, `%%` keeps the sign of x, so every negative value with a non-zero fraction comes out one whole unit too small" % fn.name)
+    if not n:
+        rep.holds("R-DATE-SPLIT", "datatype|R-DATE-SPLIT", "src/datatype.rs", "no floor/%% split in the conversions", nontrivial=False)
+
+
+def r_date_variant(ctx, rep):
+    """C11: the default conversions of the DataType trait (as_datetime / as_date / as_time / as_duration) choose by the
+    cell's *variant* (DataType::is_datetime, is_int, is_float, ...).  The flavour test of the payload
+    (ExcelDateTime::is_datetime / is_duration: date format vs elapsed-time format) has the same names and must not
+    take their place: a `[h]:mm:ss` cell is still a DateTime cell and converts."""
+    F = ctx.facts("dates")
+    n = 0
+    for fn in F.fns_in("src/datatype.rs"):
+        short = fn.name.rsplit("::", 1)[-1]
+        if short not in ("as_datetime", "as_date", "as_time", "as_duration") or "ExcelDateTime" in fn.name:
+            continue
+        n += 1
+        key = "%s|R-DATE-VARIANT" % fn.name
+        bad = []
+        for x in walk(fn.body):
+            c = None
+            if x.get("k") in ("MethodCall", "Call"):
+                c = callee(x)
+            elif x.get("k") == "Path":
+                c = path_def(x)
+            if c and c.startswith("datatype::ExcelDateTime::") and c.rsplit("::", 1)[-1] in ("is_datetime", "is_duration"):
+                bad.append(x)
+        if bad:
+            rep.violation("R-DATE-VARIANT", key, loc(bad[0]), "%s selects by the payload's format flavour (ExcelDateTime::%s) instead of the cell variant: a DateTime cell with an elapsed-time format no longer converts" % (fn.name, (callee(bad[0]) or path_def(bad[0])).rsplit("::", 1)[-1]))
+        else:
+            rep.holds("R-DATE-VARIANT", key, loc(fn.raw), "selects by cell variant only")
+    if n < 4:
+        rep.anchor_missing("R-DATE-VARIANT", "default conversions as_datetime / as_date / as_time / as_duration in src/datatype.rs (found %d)" % n)
+
+
+def r_strret(ctx, rep):
+    """C14 / C16: XlsEncoding::decode_to returns (characters, bytes).  read_unicode_string_no_cch reports how many
+    *bytes* the string occupies (the PtgStr arm steps over the literal with it): its result is built from the second
+    component."""
+    F = ctx.facts("default")
+    fn = F.fn("xls::read_unicode_string_no_cch")
+    key = "xls::read_unicode_string_no_cch|R-STRBYTES|returns-bytes"
+    if fn is None:
+        rep.anchor_missing("R-STRBYTES", "xls::read_unicode_string_no_cch")
+        return
+    call = [c for c in walk_k(fn.body, "MethodCall") if c.get("name") == "decode_to"]
+    if not call:
+        rep.anchor_missing("R-STRBYTES", "decode_to call in read_unicode_string_no_cch")
+        return
+    # locals bound to component 1 / to the whole tuple
+    second, whole, first = set(), set(), set()
+    for l in walk_k(fn.body, "Let"):
+        if l.get("init") is None or not any(x is call[0] for x in walk(l["init"])):
+            continue
+        p = l["pat"]
+        if p.get("k") == "Tuple" and len(p.get("pats", [])) == 2:
+            first |= {lid for _, lid in pat_bindings(p["pats"][0])}
+            second |= {lid for _, lid in pat_bindings(p["pats"][1])}
+        elif p.get("k") == "Binding":
+            whole.add(p["lid"])
+    from .kit import body_stmts
+    st = body_stmts(fn.body)
+    tail = st[-1].get("e") if st else None
+    rets = [r.get("e") for r in walk_k(fn.body, "Ret") if r.get("e") is not None] + ([tail] if tail is not None else [])
+    ok, bad = False, False
+    for e in rets:
+        lids = used_lids(e)
+        fields = [(f.get("name"), path_local(peel(f["e"]))) for f in walk_k(e, "Field")]
+        if lids & second or any(nm == "1" and pl and pl[1] in whole for nm, pl in fields) or any(nm == "1" and any(x is call[0] for x in walk(f_)) for f_ in walk_k(e, "Field") for nm in [f_.get("name")]):
+            ok = True
+        if lids & first or any(nm == "0" and pl and pl[1] in whole for nm, pl in fields):
+            bad = True
+    if ok and not bad:
+        rep.holds("R-STRBYTES", key, loc(call[0]), "returns 1 + the byte count reported by decode_to")
+    else:
+        rep.violation("R-STRBYTES", key, loc(call[0]), "read_unicode_string_no_cch does not build its result from the byte count (second component) of decode_to: for a string stored as 16-bit characters the caller steps over half of the literal and decodes the rest as tokens")
+
+
+_VBAREF_SKIPS = {
+    # [MS-OVBA] 2.3.4.2.2: constant-width fields skipped with `*stream = &stream[K..]` in the arm of each reference record
+    0x000D: [4, 6],          # REFERENCEREGISTERED: Size(4) .. libid .. Reserved1(4) + Reserved2(2)
+    0x000E: [4, 6],          # REFERENCEPROJECT: Size(4) .. libids .. MajorVersion(4) + MinorVersion(2)
+    0x002F: [4, 6, 4, 26],   # REFERENCECONTROL: SizeTwiddled(4) .. Reserved(4+2) .. SizeExtended(4) .. Reserved4(4)+Reserved5(2)+OriginalTypeLib(16)+Cookie(4)
+}
+
+
+def r_tab_vbaref(ctx, rep):
+    """C18: the fixed-width fields of the reference records are skipped by their widths in [MS-OVBA] 2.3.4.2.2 (a
+    wrong width makes the next record id be read from the middle of a field and the whole project is lost)."""
+    F = ctx.facts("default")
+    fn = F.fn("vba::Reference::from_stream")
+    if fn is None:
+        rep.anchor_missing("R-TAB-VBAREF", "vba::Reference::from_stream")
+        return
+    n = 0
+    for m in walk_k(fn.body, "Match"):
+        for a in m.get("arms", []):
+            ids = [v for v in pat_literals(a["pat"])[0] if isinstance(v, int) and v in _VBAREF_SKIPS]
+            if not ids:
+                continue
+            rid = ids[0]
+            skips = []
+            for asg, anc in walk_anc(a["body"]):
+                if asg.get("k") != "Assign":
+                    continue
+                if any(x.get("k") == "Match" and x.get("src") not in ("TryDesugar",) for x in anc):
+                    continue     # inside the nested token match of REFERENCECONTROL
+                for ix in walk_k(asg["r"], "Index"):
+                    idx = unwrap(ix.get("idx") or {})
+                    if idx.get("k") == "Struct":
+                        for f in idx.get("fields", []):
+                            if f.get("name") == "start" and isinstance(lit_value(f["e"]), int):
+                                skips.append(lit_value(f["e"]))
+            n += 1
+            key = "vba::Reference::from_stream|R-TAB-VBAREF|0x%04X" % rid
+            if skips == _VBAREF_SKIPS[rid]:
+                rep.holds("R-TAB-VBAREF", key, loc(a), "skips %s" % skips)
+            else:
+                rep.violation("R-TAB-VBAREF", key, loc(a), "the arm of reference record 0x%04X skips %s byte(s) at its fixed-width fields; [MS-OVBA] 2.3.4.2.2 gives %s: the next record id is read from the wrong offset and the project cannot be read" % (rid, skips, _VBAREF_SKIPS[rid]))
+    if n < 3:
+        rep.anchor_missing("R-TAB-VBAREF", "arms 0x000D / 0x000E / 0x002F in vba::Reference::from_stream (found %d)" % n)
+
+
+def r_cacheatomic(ctx, rep):
+    """C07: a loader fills its cache only when it succeeded: in the xlsx loaders the write of `self.tables` /
+    `self.merged_regions` comes after every fallible step.  (A cache set before a `?` stays half filled when the
+    loader fails, and the next call -- which sees `Some(..)` -- returns Ok with a truncated list.)"""
+    F = ctx.facts("default")
+    n = 0
+    for name, field in (("xlsx::Xlsx::read_table_metadata", "tables"), ("xlsx::Xlsx::read_merged_regions", "merged_regions")):
+        fn = F.fn(name)
+        if fn is None:
+            rep.anchor_missing("R-CACHEATOMIC", name)
+            continue
+        key = "%s|R-CACHEATOMIC|%s" % (name, field)
+        order = {id(x): i for i, x in enumerate(walk(fn.body))}
+        writes = []
+        for x in walk(fn.body):
+            k = x.get("k")
+            if k == "Assign" and field_chain(x["l"]) == ("self", [field]):
+                writes.append(x)
+            elif k == "MethodCall" and field_chain(x["recv"]) == ("self", [field]) and ((x["recv"].get("aty") or "").startswith("&mut ")):
+                writes.append(x)
+            elif k == "AddrOf" and x.get("mut") and field_chain(x["e"]) == ("self", [field]):
+                writes.append(x)
+        if not writes:
+            rep.anchor_missing("R-CACHEATOMIC", "the write of self.%s in %s" % (field, name))
+            continue
+        n += 1
+        first = min(order[id(w)] for w in writes)
+        late = [t for t in walk_k(fn.body, "Match") if t.get("src") == "TryDesugar" and order[id(t)] > first and not any(t is y for w in writes for y in walk(w))]
+        if late:
+            rep.violation("R-CACHEATOMIC", key, loc(late[0]), "%s writes self.%s before a fallible step (`?` at %s): when that step fails the cache stays partly filled, the next load_* call sees it as loaded and returns Ok -- later reads depend on the history of calls" % (name, field, loc(late[0])))
+        else:
+            rep.holds("R-CACHEATOMIC", key, loc(writes[0]), "self.%s is written after the last fallible step" % field)
